@@ -160,6 +160,29 @@ PROPS.update({
  },
 })
 
+
+PROPS.update({
+ "C12": {
+  "level": "exploration", "design_ref": "DESIGN.md §5 P-C12",
+  "technique": "deterministic simulation with real OS processes: 2-4 invocations of drc / do-approve (approve, compare, different spellings of the device path) are parked at hook points and at every device interaction and released one at a time by a single-threaded orchestrator from the tape; holders are SIGKILLed at a parked point; session-overlap detector in the device node, before/after snapshots around every losing run, try-lock history checked with porcupine against a sequential model",
+  "level_text": "Seeded search over interleavings: where in the holder's run each contender starts, which parked process proceeds, whether the holder is killed. flock(2) and the file system are real, so release-on-kill is the kernel's. Oracles: no two sessions on one device, a loser exits 1 with 'Approve in progress' and leaves status/history/logs/device untouched, the lock history is a legal try-lock history (no spurious failure, lock free after kill).",
+  "level_note": "Real processes use the real clock (goexpect poll ticker), so no timing faults in this mode; device = IOS node inside the tool process with its state in a file.",
+  "rule": "evaluations = multi-process runs; non-trivial = run with at least one loser or a kill; distinct = hash of the event log",
+  "quick": B(160, 60), "thorough": B(6000, 1500),
+  "real": ["cmd/drc and cmd/do-approve main packages rebuilt with the hook installer (3-line mains)", "pkg/drc, pkg/doapprove, pkg/device (SetLock, flock)", "pkg/status", "kernel flock, file system"],
+  "stubs": ["ssh: in-process IOS node (state file)", "the two main wrappers"], "assumptions": ASSUME_LIVE, "min_nontrivial": 10,
+ },
+ "C13": {
+  "level": "exploration", "design_ref": "DESIGN.md §5 P-C13",
+  "technique": "deterministic simulation of event histories: real do-approve approve/compare sessions in synctest bubbles against IOS nodes (with injected faults), new policies with same/different code per v4/v6/raw file, manual drift, bzip2/removal of old policies, damaged status files, strictly increasing TEST_TIME; after every event the real missing-approve binary is compared with a small reference model fed with what the runs observed",
+  "level_text": "Seeded histories of 3-12 events over 1-2 devices. Model: latest conclusive observation (approve OK or undisturbed compare); not established => must be listed; established, observed policy on disk and status not damaged since => must not be listed; anything else either way.",
+  "level_note": "The model never reads the status file. Kills of do-approve at hook points are not part of this check (process mode covers locks only).",
+  "rule": "evaluations = missing-approve verdicts (one per event); non-trivial = each history; distinct = hash of the event log",
+  "quick": B(2500, 50), "thorough": B(100000, 1200),
+  "real": REAL_LIVE + ["cmd/missing-approve (real binary)", "bzip2"], "stubs": STUB_LIVE, "assumptions": ASSUME_LIVE, "min_nontrivial": 50,
+ },
+})
+
 # Properties without a registered check: id -> reason.
 NOT_CLAIMED = {
 }
